@@ -21,6 +21,7 @@ def gen_cases(rng, tier, ctx):
     cs = gen.encoder_cases(rng, tier, n, allow_empty_modes=True, allow_empty_list=True, eci_share=5)
     cs += gen.boundary_cases(rng, tier, per_cap=1 if tier == 'quick' else 4)
     cs += gen.constant_cases(rng, tier)
+    cs += gen.limit_cases(rng, tier)
     cs += corpus.encoder_cases()
     cs += gen.prefix_cases(rng, tier)
     # every mode subset on a few mixed strings, singleton / pair / empty lists
